@@ -63,6 +63,7 @@ func C17(c *Ctx) {
 
 	// SupplyOf
 	n := 0
+	supplyOfFns, pageFns, entSupplyFns := map[*ssa.Function]bool{}, map[*ssa.Function]bool{}, map[*ssa.Function]bool{}
 	for _, f := range w.PkgFuncs("x/enterprise/keeper") {
 		if w.IsGenerated(f) || f.Parent() != nil || f.Signature.Recv() == nil {
 			continue
@@ -91,16 +92,22 @@ func C17(c *Ctx) {
 					return cmpIs(p, op, isReqDenom, isEntDenom)
 				}
 			}
-			for i, ret := range ir.Returns(f) {
-				v := inl(w.ExprOf(ret.Results[0]))
+			supplyOfFns[f] = true
+			// every way the function produces its result (a return of its own, or of a helper whose value it hands on), with
+			// the value in the function's terms and in canonical form
+			for i, alt := range returnAlts(c, f, 0) {
+				v := inl(alt.E)
+				if !(calleeIs(v, "types.Coin).Sub") || isBankSupplyOf(c, v, isReqDenom)) {
+					v = w.Expand(alt.E, 4)
+				}
 				key := fmt.Sprintf("%s|return%d", fn(f), i)
 				switch {
 				case calleeIs(v, "types.Coin).Sub") && len(v.Args) == 2 && isBankSupplyOf(c, v.Args[0], isReqDenom) && isTotalLocked(c, v.Args[1]):
-					r.Require(w.Guarded(f, ret, eq(true), 1), "A2.supply-of", key, pos(c, ret), "supply minus locked eFUND is returned only for the enterprise denomination", "reachable for other denominations")
+					r.Require(alt.Guarded(eq(true), 1), "A2.supply-of", key, pos(c, alt.Pos.In), "supply minus locked eFUND is returned only for the enterprise denomination", "reachable for other denominations")
 				case isBankSupplyOf(c, v, isReqDenom):
-					r.Require(w.Guarded(f, ret, eq(false), 1), "A2.supply-of", key, pos(c, ret), "the unchanged bank supply is returned only for denominations other than the enterprise one", "reachable for the enterprise denomination")
+					r.Require(alt.Guarded(eq(false), 1), "A2.supply-of", key, pos(c, alt.Pos.In), "the unchanged bank supply is returned only for denominations other than the enterprise one", "reachable for the enterprise denomination")
 				default:
-					r.Bad("A2.supply-of", key, pos(c, ret), "the supply of a denomination is bank.GetSupply(denom), minus stored TotalLocked for the enterprise denomination", "returns "+v.String())
+					r.Bad("A2.supply-of", key, pos(c, alt.Pos.In), "the supply of a denomination is bank.GetSupply(denom), minus stored TotalLocked for the enterprise denomination", "returns "+v.String())
 				}
 			}
 		}
@@ -125,6 +132,7 @@ func C17(c *Ctx) {
 			continue
 		}
 		np++
+		pageFns[f] = true
 		key := fn(f)
 		pe := w.ExprOf(page)
 		for i, ret := range ir.Returns(f) {
@@ -153,15 +161,36 @@ func C17(c *Ctx) {
 					continue
 				}
 				nst++
-				v := inl(w.ExprOf(st.Val))
 				elem := func(e *ir.Expr) bool {
 					return e.Op == "elem" && e.Args[0].String() == base.String() && e.Args[1].String() == w.ExprOf(ia.Index).String()
 				}
-				okV := calleeIs(v, "types.Coin).Sub") && len(v.Args) == 2 && elem(v.Args[0]) && isTotalLocked(c, v.Args[1])
-				r.Require(okV, "A2.paginated-supply", key+"|rewrite-value", pos(c, in), "element i is replaced by element i minus the stored TotalLocked", "stores "+v.String())
-				g := w.Guarded(f, in, func(p ir.Pred) bool {
+				isEntElem := func(p ir.Pred) bool {
 					return cmpIs(p, "==", func(x *ir.Expr) bool { return x.Op == "field" && x.Name == "Denom" && elem(x.Args[0]) }, isEntDenom)
-				}, 1)
+				}
+				// the ways the stored value is produced (a helper may decide between the element itself and element minus
+				// locked): the element written back unchanged is no rewrite; the reduced one must be the enterprise entry's
+				okV, g := true, true
+				shown := ""
+				for _, alt := range valueAlts(c, f, in, st.Val) {
+					v := inl(alt.E)
+					if !calleeIs(v, "types.Coin).Sub") && !elem(v) {
+						v = w.Expand(alt.E, 4)
+					}
+					shown = v.String()
+					if elem(v) {
+						continue
+					}
+					if !(calleeIs(v, "types.Coin).Sub") && len(v.Args) == 2 && elem(v.Args[0]) && isTotalLocked(c, v.Args[1])) {
+						okV = false
+						continue
+					}
+					if alt.Pos.In == in && alt.Pos.Ctx != nil && alt.Pos.Ctx.Up == nil {
+						g = g && w.Guarded(f, in, isEntElem, 1)
+					} else {
+						g = g && alt.Guarded(isEntElem, 1)
+					}
+				}
+				r.Require(okV, "A2.paginated-supply", key+"|rewrite-value", pos(c, in), "element i is replaced by element i minus the stored TotalLocked", "stores "+shown)
 				r.Require(g, "A2.paginated-supply", key+"|rewrite-guard", pos(c, in), "only the enterprise denomination's entry is reduced", "rewrite reachable for other denominations")
 			}
 		}
@@ -200,11 +229,19 @@ func C17(c *Ctx) {
 			continue
 		}
 		ns++
+		entSupplyFns[f] = true
 		sum := inl(w.Summary(f).Args[0])
 		amt := func(e *ir.Expr) *ir.Expr {
 			// Uint64(<coin>.Amount)
 			if calleeIs(e, "math.Int).Uint64") && len(e.Args) == 1 && e.Args[0].Op == "field" && e.Args[0].Name == "Amount" {
-				return inl(e.Args[0].Args[0])
+				a := inl(e.Args[0].Args[0])
+				if a.Op == "field" || a.Op == "call" && a.Callee != nil {
+					// figures loaded by a helper that bundles them (a struct of total / locked / unlocked): in canonical form
+					if x := w.Expand(a, 3); x != nil && (calleeIs(x, "types.Coin).Sub") || calleeIs(x, "BankKeeper.GetSupply")) {
+						a = x
+					}
+				}
+				return a
 			}
 			return nil
 		}
@@ -225,17 +262,32 @@ func C17(c *Ctx) {
 	// unlocked total
 	if f := w.LookupFunc("(x/enterprise/keeper.Keeper).GetTotalUnLockedUnd"); f != nil {
 		v := inl(w.Summary(f).Args[0])
+		if !calleeIs(v, "types.Coin).Sub") {
+			if x := w.Expand(v, 3); calleeIs(x, "types.Coin).Sub") {
+				v = x
+			}
+		}
 		ok := calleeIs(v, "types.Coin).Sub") && len(v.Args) == 2 && isBankSupplyOf(c, v.Args[0], isEntDenom) && isTotalLocked(c, v.Args[1])
 		r.Require(ok, "A7.enterprise-supply", "total-unlocked", w.Pos(f.Pos()), "total unlocked = bank supply of the enterprise denom minus stored TotalLocked", v.String())
 	}
 
 	// query wiring
-	wiring := []struct{ q, field, callee string }{
-		{"SupplyOf", "Amount", "GetSupplyOfWithLockedNundRemoved"},
-		{"TotalSupply", "Supply", "GetTotalSupplyWithLockedNundRemoved"},
-		{"TotalUnlocked", "Amount", "GetTotalUnLockedUnd"},
-		{"TotalLocked", "Amount", "GetTotalLockedUnd"},
-		{"EnterpriseSupply", "Supply", "GetEnterpriseSupplyIncludingLockedUnd"},
+	// the function each query must answer with is named by its role, established above by what it computes
+	roleIs := func(set map[*ssa.Function]bool) func(*ir.Expr) bool {
+		return func(src *ir.Expr) bool { return src.Op == "call" && src.Callee != nil && set[src.Callee] }
+	}
+	wiring := []struct {
+		q, field, callee string
+		is               func(*ir.Expr) bool
+	}{
+		{"SupplyOf", "Amount", "the per-denomination supply function", roleIs(supplyOfFns)},
+		{"TotalSupply", "Supply", "the paginated supply function", roleIs(pageFns)},
+		{"TotalUnlocked", "Amount", "bank supply of the enterprise denom minus stored TotalLocked", func(src *ir.Expr) bool {
+			x := w.Expand(src, 4)
+			return calleeIs(x, "types.Coin).Sub") && len(x.Args) == 2 && isBankSupplyOf(c, x.Args[0], isEntDenom) && isTotalLocked(c, x.Args[1])
+		}},
+		{"TotalLocked", "Amount", "the stored TotalLocked", func(src *ir.Expr) bool { return isTotalLocked(c, src) }},
+		{"EnterpriseSupply", "Supply", "the EnterpriseSupply record function", roleIs(entSupplyFns)},
 	}
 	for _, wi := range wiring {
 		q := queryOf(c, "enterprise", wi.q)
@@ -255,17 +307,19 @@ func C17(c *Ctx) {
 			if src.Op == "res" {
 				src = src.Args[0]
 			}
-			if src.Op == "call" && src.Callee != nil && strings.HasSuffix(fn(src.Callee), "."+wi.callee) {
+			if wi.is(src) {
 				ok = true
 				// request-derived arguments are passed through
-				for _, a := range src.Args[2:] {
-					if !(a.Op == "field" && len(a.Args) == 1 && a.Args[0].Op == "param") {
-						ok = false
+				if src.Op == "call" && len(src.Args) > 2 {
+					for _, a := range src.Args[2:] {
+						if !(a.Op == "field" && len(a.Args) == 1 && a.Args[0].Op == "param") {
+							ok = false
+						}
 					}
 				}
 			}
 		}
-		r.Require(ok, "A7.query-wiring", wi.q, w.Pos(q.Pos()), "the "+wi.q+" query returns "+wi.callee+"(request fields)", got)
+		r.Require(ok, "A7.query-wiring", wi.q, w.Pos(q.Pos()), "the "+wi.q+" query returns "+wi.callee+" (for the request's fields)", got)
 	}
 	for _, alias := range [][2]string{{"SupplyOfOverwrite", "SupplyOf"}, {"TotalSupplyOverwrite", "TotalSupply"}} {
 		q := queryOf(c, "enterprise", alias[0])
